@@ -490,6 +490,24 @@ impl HashColumn {
 		})
 	}
 
+	/// Verification hook: sizes of the index / ref-count tables and the reindex queue, written
+	/// as the log model writes a column: `h,<index bits>,<ref-count bits or ->,<queue>`.
+	#[cfg(pdb_verif)]
+	pub fn verif_table_cfg(&self) -> String {
+		let tables = self.tables.read();
+		let reindex = self.reindex.read();
+		let rc = tables.ref_count.as_ref().map_or("-".to_string(), |t| t.id.index_bits().to_string());
+		let queue: Vec<String> = reindex
+			.queue
+			.iter()
+			.map(|e| match e {
+				ReindexEntry::Index(t) => format!("i{}", t.id.index_bits()),
+				ReindexEntry::RefCount(t) => format!("r{}", t.id.index_bits()),
+			})
+			.collect();
+		format!("h,{},{},{}", tables.index.id.index_bits(), rc, queue.join("."))
+	}
+
 	pub fn init_table_data(&mut self) -> Result<()> {
 		let mut tables = self.tables.write();
 		for table in &mut tables.value {
